@@ -70,6 +70,24 @@ def all_triples(cands):
 
 
 def gen(rng, n, tier):
+    import hashlib
+    from ..core import Rng
+    opt = Rng(int(hashlib.sha1(("options" + repr(rng.getstate())).encode()).hexdigest()[:15], 16))
+    yield from gen_main(rng, n, tier)
+    # call form the main stream never uses (OPTIONS_AUDIT.md): parseAssertions(auditfile, candidatefile) without the
+    # optional `contest_id` (default None: the numerically smallest contest), and `contest_id=` by keyword
+    for _ in range(max(6, n // 25)):
+        c = gen_log(opt)
+        if opt.chance(0.6):
+            c["contest_id"] = None
+            sel = selected_contest(c)              # the tree asked of the model is one of the contest now selected
+            alts = [x for x in sel["candidates"] if x != sel["winner"][0]]
+            c["alt"] = opt.choice(alts) if alts else None
+        c["call"] = "defaults"
+        yield c
+
+
+def gen_main(rng, n, tier):
     cands = ["A", "B", "C"]
     wo3, irv3 = all_triples(cands)
     pool = [("wo", t) for t in wo3] + [("irv", t) for t in irv3]
@@ -270,7 +288,12 @@ def impl_log(case):
     from shangrla.core.IRVVisualisationUtils import buildRemainingTreeAsLists, parseAssertions, treeListToTuple
     log = {"Audit": {"seed": case["seed"]}, "contests": {cid: copy.deepcopy(con) for cid, con in case["contests"]}}
     with contextlib.redirect_stdout(io.StringIO()):
-        (winner, wname), nonw, WOLosers, IRVElims = parseAssertions(log, copy.deepcopy(case["candfile"]), case["contest_id"])
+        if case.get("call") == "defaults":
+            # `contest_id` left out when the case selects no contest (its default is None), given by keyword otherwise
+            kw = {} if case["contest_id"] is None else {"contest_id": case["contest_id"]}
+            (winner, wname), nonw, WOLosers, IRVElims = parseAssertions(log, copy.deepcopy(case["candfile"]), **kw)
+        else:
+            (winner, wname), nonw, WOLosers, IRVElims = parseAssertions(log, copy.deepcopy(case["candfile"]), case["contest_id"])
     non = [c[0] for c in nonw]
     alts = []
     for c in nonw:                      # as buildPrintedResults does
